@@ -361,7 +361,12 @@ def _pipe_rows(ctx):
             else:
                 continue
             stop = [val for val in cands if feasible_reach(c, a['ready'], set(nones), set(), overrides={X: val})]
-            if not stop or len(stop) == len(cands):
+            if stop and len(stop) == len(cands):
+                decided = True
+                out.append(bad(R, 'PipeContext::poll|released-only-when-finished', 'the poll function can be released whatever it answered (also when it said "keep polling"): a follow-up poll that is already queued finds it gone, '
+                               'and the item that triggered it and every later one are never processed', loc=c.loc(nones[0]), fn=c.name))
+                continue
+            if not stop:
                 continue
             decided = True
             exits = set(c.exits())
@@ -779,6 +784,9 @@ def _future_rows(ctx):
     # UnsafeJob's destructor always looks for its notification
     uj = F.fn('<desync::UnsafeJob as core::ops::drop::Drop>::drop')
     key = 'UnsafeJob::drop|looks-for-its-notification'
+    if not uj and 'desync::UnsafeJob' in F.adts:
+        out.append(bad(R, key, 'UnsafeJob has no destructor any more: the waiting sync() caller is told "done" by the destructor precisely because it also runs when the job is dropped unrun (a panicked queue) or '
+                       'unwinds out of a panicking closure; signalling only at the end of run() leaves that caller blocked for ever'))
     if uj:
         takes = [bb for bb, t in calls(uj, 'core::option::Option::take')]
         if takes and _always(uj, takes):
@@ -895,6 +903,31 @@ def _third_batch(ctx):
     F = ctx.F
     g = cg(ctx)
     out = []
+    # ---- WakeQueue: whatever state it finds (bar the stale-DoubleWaker case WaitingForUnpark) the wake ends in reschedule_queue; that call is
+    # also what repairs a queue another waker left Idle with its suspended job still queued
+    wq = F.fn('<desync::WakeQueue as futures_task::arc_wake::ArcWake>::wake_by_ref')
+    key = 'WakeQueue|every-wake-reschedules'
+    if wq:
+        # decided on the protocol interpreter's per-path summary (pre-state of the queue, did the path call reschedule_queue), which follows
+        # decision enums, flags and tuples returned by helpers
+        P = ctx.proto
+        snaps = set()
+        for (k_, fname, _x), v in P.events.items():
+            if k_ == 'exit_act' and fname == wq.name:
+                snaps |= set(v)
+        if not snaps:
+            out.append(undecided(R, key, 'the protocol interpreter recorded no path through WakeQueue::wake_by_ref'))
+        else:
+            skipped = set()
+            for pre, act in snaps:
+                pre = pre if pre is not None else frozenset(['?'])
+                if not (act & 1) and not (pre <= frozenset(['WaitingForUnpark'])):
+                    skipped |= set(pre) - {'WaitingForUnpark'}
+            if skipped:
+                out.append(bad(R, key, 'a wake-up that finds the queue %s returns without calling reschedule_queue: when another (stale) waker has already moved the parked queue to Idle, the real wake-up is the only thing that '
+                               'would put it back on the schedule, and it is now dropped' % '/'.join(sorted(skipped)), fn=wq.name))
+            else:
+                out.append(ok(R, key, 'every path but the WaitingForUnpark one ends in reschedule_queue (%d path summaries)' % len(snaps), fn=wq.name))
     # ---- pool thread body (the closure handed to SchedulerThread::run): it stops only when it found nothing to run, and then it is idle
     sd = F.fn('desync::SchedulerCore::schedule_dormant')
     body = None
